@@ -470,6 +470,9 @@ var c13Files = []string{
 	"index.php", "a.php", "B.PHP", "app/index.php", "app/x.php", "app/Y.PhP", "app/info.php",
 	"app/static.txt", "app/noidx/readme.md", "app/sub/index.html", "app/sub/home.php",
 	"app/dir.php/inner.txt", "app/sp ace.php", "other/z.php", "app/ȺȺ.php", "app/ünï.php",
+	// scripts of other responders (sites with several fastcgi rules)
+	"cgi/tool.pl", "cgi/TOOL2.PL", "cgi/run.cgi", "cgi/index.pl", "cgi/readme.txt", "cgi/lib/x.py", "cgi/lib/index.py", "app/t.pl", "app/job.cgi",
+	"cgi/tool.pl.d/notes.txt",
 }
 
 type c13Responder struct {
@@ -833,10 +836,28 @@ poll:
 		sig = "serve:case-sensitive-paths-and-split-differs-in-case"
 	case c13BoundaryHeader(hdr):
 		sig = "serve:pair-fits-one-record-but-8+k+v-exceeds-65500"
+	case c13LaterRuleClaims(fh.Rules, in.Path):
+		sig = "serve:several-rules:earlier-rule-cannot-split"
 	}
 	term := cApp("CServe", cBool(in.CS), sv, cList(rules), cList(statT), cList(openT), q, c13Term(in.Body), rs, obs)
 	return Result{Term: term, Obs: obsJ, Sig: sig, Nontrivial: outcome == "dispatched" || outcome == "next",
 		Class: "serve:" + outcome + ":" + in.Method}
+}
+
+// an earlier rule matches the path but its split string does not occur in it, and a later rule matches the path too
+func c13LaterRuleClaims(rules []fastcgi.Rule, p string) bool {
+	fp := strings.ToLower(strings.TrimRight(p, " ."))
+	for i, r := range rules {
+		if !httpserver.Path(p).Matches(r.Path) || strings.Contains(fp, strings.ToLower(r.SplitPath)) {
+			continue
+		}
+		for _, l := range rules[i+1:] {
+			if httpserver.Path(p).Matches(l.Path) {
+				return true
+			}
+		}
+	}
+	return false
 }
 
 // the split string occurs in the path only with different letter case
@@ -1509,6 +1530,93 @@ func c13GenServe(r *Rand) *c13In {
 	return in
 }
 
+// c13GenServeMulti: a site with 2-3 fastcgi rules for DIFFERENT responders - a catch-all or broad rule and narrower
+// ones, each with its own extension / split string (php preset, .pl, .cgi, .py), in any order (mostly the broad
+// one first: its split string does not occur in a script of the narrower rule, which a LATER rule claims) - and
+// a request for a script, a script with path info, a directory or a static file under them.
+func c13GenServeMulti(r *Rand) *c13In {
+	in := c13GenServe(r)
+	mk := func(path, ext string) c13Rule {
+		ru := c13Rule{Path: path}
+		switch {
+		case ext == ".php" && r.Chance(60):
+			ru.Preset = true
+			if r.Chance(30) {
+				ru.Index = []string{"index.php"}
+			}
+		default:
+			e := ext
+			if r.Chance(15) {
+				e = strings.ToUpper(ext)
+			}
+			ru.Ext, ru.Split = c13Ptr(e), c13Ptr(ext)
+			if r.Chance(35) {
+				ru.Index = []string{"index" + ext}
+			}
+			if r.Chance(10) {
+				ru.Split = nil // no split configured: every path can be split (at 0)
+			}
+		}
+		if r.Chance(12) {
+			ru.Except = [][]string{{"/readme.txt"}, {"/lib"}, {"/tool.pl"}}[r.Intn(3)]
+		}
+		ru.Env = nil
+		if r.Chance(30) {
+			ru.Env = [][2]string{{"APP_ENV", "prod"}}
+		}
+		return ru
+	}
+	broadExt := r.Pick([]string{".php", ".php", ".php", ".cgi", ".pl"})
+	broad := mk(r.Pick([]string{"/", "/", "/", "/cgi", "/app"}), broadExt)
+	var narrow []c13Rule
+	exts := []string{".pl", ".cgi", ".py", ".php"}
+	nn := 1 + r.Intn(2)
+	for k := 0; k < nn; k++ {
+		e := exts[r.Intn(len(exts))]
+		for e == broadExt {
+			e = exts[r.Intn(len(exts))]
+		}
+		var np string
+		switch broad.Path {
+		case "/cgi":
+			np = r.Pick([]string{"/cgi/lib", "/cgi", "/cgi/"})
+		case "/app":
+			np = r.Pick([]string{"/app", "/app/sub", "/app/"})
+		default:
+			np = r.Pick([]string{"/cgi", "/cgi", "/app", "/cgi/lib", "/CGI", "/"})
+		}
+		narrow = append(narrow, mk(np, e))
+	}
+	in.Rules = append([]c13Rule{broad}, narrow...)
+	if r.Chance(25) { // the narrower rule written first
+		k := 1 + r.Intn(len(in.Rules)-1)
+		in.Rules[0], in.Rules[k] = in.Rules[k], in.Rules[0]
+	}
+	paths := []string{"/cgi/tool.pl", "/cgi/tool.pl", "/cgi/TOOL2.PL", "/cgi/tool.PL", "/cgi/run.cgi", "/cgi/lib/x.py", "/app/t.pl", "/app/job.cgi",
+		"/cgi/tool.pl/extra/info", "/cgi/run.cgi/p/i", "/cgi/", "/cgi/lib/", "/cgi/readme.txt", "/cgi/nope.pl", "/cgi/tool.pl.d/notes.txt",
+		"/app/x.php", "/cgi/lib/x.py/info.php", "/app/sub/home.php", "/CGI/tool.pl", "/cgi/tool.pl. ", "/index.php", "/app/"}
+	in.Path = r.Pick(paths)
+	if r.Chance(70) { // a script of one of the narrower rules
+		nr := narrow[r.Intn(len(narrow))]
+		e := ".php"
+		if nr.Split != nil {
+			e = *nr.Split
+		} else if nr.Ext != nil {
+			e = strings.ToLower(*nr.Ext)
+		}
+		var under []string
+		for _, p := range paths {
+			if strings.Contains(strings.ToLower(p), e) && strings.HasPrefix(strings.ToLower(p), strings.TrimSuffix(strings.ToLower(nr.Path), "/")) {
+				under = append(under, p)
+			}
+		}
+		if len(under) > 0 {
+			in.Path = r.Pick(under)
+		}
+	}
+	return in
+}
+
 // ---------- run-length boundary framings ----------
 // bufio.Reader (FCGIClient.Request) gives up after 100 consecutive empty reads; runs of stderr
 // records of length 1, 99, 100, 101, 150, 300, 1000 are placed before / inside / after the header
@@ -1682,6 +1790,10 @@ func c13GenDemuxBurst(r *Rand, k int) *c13In {
 }
 
 func c13Gen(r *Rand, tier string) []interface{} {
+	nm := 120
+	if tier == "thorough" {
+		nm = 1200
+	}
 	nw, nd, ns, nc := 110, 300, 520, 40
 	nb := len(c13Runs) * c13BurstPositions
 	nsb, ndb := nb+10, nb+6
@@ -1709,6 +1821,10 @@ func c13Gen(r *Rand, tier string) []interface{} {
 	}
 	spread(nd, ndb, func(int) interface{} { return c13GenDemux(r) }, func(i int) interface{} { return c13GenDemuxBurst(r, i) })
 	spread(ns, nsb, func(int) interface{} { return c13GenServe(r) }, func(i int) interface{} { return c13GenServeBurst(r, i) })
+	// sites with several fastcgi rules (different responders, extensions and split strings)
+	for i := 0; i < nm; i++ {
+		out = append(out, c13GenServeMulti(r))
+	}
 	for i := 0; i < nc; i++ {
 		out = append(out, c13GenChild(r))
 	}
@@ -1720,7 +1836,7 @@ func init() {
 		ID: "C13", Imports: "V.Lib V.C13_Model", Judge: "judge", Shard: 68,
 		Rule: "cases = (wire) real FCGIClient.Do over an in-memory connection, raw bytes decoded in Coq by a reference responder; " +
 			"(demux) real streamReader over scripted record framings (incl. runs of 1..1000 consecutive stderr records before/inside/after the header block, inside/after the body, after EndRequest), connection segmentations and caller buffer sizes, every Read call observed; " +
-			"(serve) real fastcgi setup + Handler.ServeHTTP on a real directory tree against a byte-level loopback responder (env entries with placeholders that are valued / empty for the request; the same run-length boundary framings); " +
+			"(serve) real fastcgi setup + Handler.ServeHTTP on a real directory tree (sites with 1-2 php rules, and sites with 2-3 rules for different responders - catch-all + narrower, different ext / split, in any order - and requests for scripts of the later rules) against a byte-level loopback responder (env entries with placeholders that are valued / empty for the request; the same run-length boundary framings); " +
 			"(child) the same handler against Go's net/http/fcgi responder. " +
 			"non-trivial = wire case with at least one pair or body byte, demux case with >= 2 records (runs expanded), serve case that reached the responder or the next handler; distinct = distinct Coq case term",
 		Gen: c13Gen,
